@@ -204,6 +204,13 @@ func vfStrIn(s string, list []string) bool {
 	return false
 }
 func vfSymbolic(v interface{}) bool { return false }
+func vfIndex(tag string, n int) int {
+	i := vfInt(tag, 0, n-1)
+	if i < 0 || i >= n {
+		vfAssume(false, "vfIndex out of range")
+	}
+	return i
+}
 func vfDistinct(l []string) {
 	for i := range l {
 		for j := i + 1; j < len(l); j++ {
